@@ -18,6 +18,7 @@ import (
 	"math/big"
 	"math/rand"
 	"strings"
+	"sync"
 	"time"
 
 	tls "github.com/refraction-networking/utls"
@@ -516,6 +517,10 @@ func run(c *vh.Ctx) {
 	for i := 0; i < nH; i++ {
 		runHistory(c, e, i)
 	}
+	// 4a. interleaved and concurrent decryptions: every returned state stays the value it was
+	for i := 0; i < nT/2+2; i++ {
+		runInterleaved(c, e, i)
+	}
 	// 4b. families of Configs related by Clone
 	nF := c.N / 10
 	if nF < 6 {
@@ -579,6 +584,14 @@ func runTicket(c *vh.Ctx, e *env, idx int) {
 	if ok, why := sameState(ss, back); !ok {
 		c.Fail("ticket-roundtrip", "DecryptTicket(EncryptTicket(s)) != s: "+why, g, nil, nil)
 	}
+	keep := &keeper{}
+	keep.hold(back, "ticket")
+	defer func() {
+		keep.check(c, "end of the per-ticket sweep")
+		if ok, why := sameState(ss, back); !ok && !keep.failed {
+			c.Fail("state-value-changed/ticket", "the state returned for a ticket no longer equals the original at the end of the sweep: "+why, g, nil, nil)
+		}
+	}()
 	// every single-bit flip and every truncation
 	mut := make([]byte, len(ticket))
 	for bit := 0; bit < 8*len(ticket); bit++ {
@@ -612,6 +625,10 @@ func runTicket(c *vh.Ctx, e *env, idx int) {
 	g2 := genState(r, e.ders, 0)
 	ss2, _ := tls.ParseSessionState(g2.refBytes())
 	ticket2, _ := cfg.EncryptTicket(tls.ConnectionState{}, ss2)
+	if s2, _ := cfg.DecryptTicket(ticket2, tls.ConnectionState{}); s2 != nil {
+		keep.hold(s2, "ticket")
+	}
+	keep.check(c, "decrypting another ticket")
 	tryBad := func(key, what string, t []byte, detail any) bool {
 		c.Count("insertions")
 		if s, _ := cfg.DecryptTicket(t, tls.ConnectionState{}); s != nil {
@@ -742,6 +759,85 @@ func buildTables(cands [][32]byte, tickets [][]byte) *tabs {
 	return tb
 }
 
+// ---------- returned states are VALUES: they must stay equal to the original whatever happens afterwards ----------
+type kept struct {
+	s     *tls.SessionState
+	want  []byte   // Bytes() when the state was returned
+	extra [][]byte // copies of Extra at that time
+	early bool
+	where string
+}
+
+type keeper struct {
+	items  []kept
+	failed bool
+}
+
+// hold remembers a state returned by DecryptTicket and returns a token that resolve() later replaces by the
+// observation (Bytes() of the state) taken at the END of the history, which is what the model is compared with
+func (k *keeper) hold(s *tls.SessionState, where string) string {
+	b, err := s.Bytes()
+	it := kept{s: s, early: s.EarlyData, where: where}
+	if err == nil {
+		it.want = b
+	}
+	for _, x := range s.Extra {
+		it.extra = append(it.extra, append([]byte{}, x...))
+	}
+	k.items = append(k.items, it)
+	return fmt.Sprintf("@@K%d@@", len(k.items)-1)
+}
+
+func (it *kept) intact() (bool, string) {
+	b, err := it.s.Bytes()
+	if (err == nil) != (it.want != nil) || !bytes.Equal(b, it.want) {
+		return false, "encoding now " + vh.Hex(b)
+	}
+	if it.s.EarlyData != it.early || len(it.s.Extra) != len(it.extra) {
+		return false, "Extra/EarlyData changed"
+	}
+	for i := range it.extra {
+		if !bytes.Equal(it.s.Extra[i], it.extra[i]) {
+			return false, fmt.Sprintf("Extra[%d] now %x", i, it.s.Extra[i])
+		}
+	}
+	return true, ""
+}
+
+// check deep-compares every state held so far against what it was when it was returned
+func (k *keeper) check(c *vh.Ctx, after string) bool {
+	if k.failed {
+		return false
+	}
+	for i := range k.items {
+		if ok, why := k.items[i].intact(); !ok {
+			k.failed = true
+			c.Fail("state-value-changed/"+k.items[i].where, "a SessionState returned by DecryptTicket changed after a later ticket operation (it shares memory with something that was reused)",
+				map[string]any{"held_state_index": i, "states_held": len(k.items), "changed_after": after, "was": vh.Hex(k.items[i].want)}, why, "the state as returned")
+			return false
+		}
+	}
+	return true
+}
+
+func (k *keeper) resolve(ops []string) []string {
+	out := make([]string, len(ops))
+	for i, op := range ops {
+		for j := range k.items {
+			tok := fmt.Sprintf("@@K%d@@", j)
+			if strings.Contains(op, tok) {
+				obs := "None"
+				if b, err := k.items[j].s.Bytes(); err == nil {
+					obs = optBytes(true, b)
+				}
+				op = strings.Replace(op, tok, obs, 1)
+			}
+		}
+		out[i] = op
+	}
+	return out
+}
+
 type readerFunc func(p []byte) (int, error)
 
 func (f readerFunc) Read(p []byte) (int, error) { return f(p) }
@@ -782,6 +878,7 @@ func runHistory(c *vh.Ctx, e *env, idx int) {
 	var tickets [][]byte
 	var kinds []string
 	var usedDers [][]byte
+	keep := &keeper{}
 	nops := 3 + r.Intn(8)
 	mode := idx % 3 // 0: explicit keys, 1: automatic rotation, 2: mixed incl. legacy field
 	for i := 0; i < nops; i++ {
@@ -874,17 +971,15 @@ func runHistory(c *vh.Ctx, e *env, idx int) {
 			}
 			obs := "None"
 			if s != nil {
-				b, err := s.Bytes()
-				obs = optBytes(err == nil, b)
-				if err != nil {
-					obs = "None"
-				}
+				obs = keep.hold(s, "history")
 			}
 			ops = append(ops, fmt.Sprintf("HOpen %s %s", vh.Bytes(t), obs))
 			kinds = append(kinds, "open")
 			tickets = append(tickets, t)
 		}
+		keep.check(c, kinds[len(kinds)-1])
 	}
+	ops = keep.resolve(ops)
 	tb := buildTables(cands, tickets)
 	term := fmt.Sprintf("CHist %s %s %s %s %s %d%%Z %s", vh.List(tb.sh), vh.List(tb.hm), vh.List(tb.ks), coqBytesList(usedDers),
 		vh.Bytes(append(all, make([]byte, 64)...)), t0, vh.List(ops))
@@ -945,7 +1040,9 @@ func runFamily(c *vh.Ctx, e *env, idx int) {
 		ops = append(ops, fmt.Sprintf("FClone %d", i))
 		kinds = append(kinds, fmt.Sprintf("clone%d", i))
 	}
+	keep := &keeper{}
 	exercise := func(step string) bool {
+		defer keep.check(c, step)
 		for i, cfg := range cfgs {
 			g := genState(r, e.ders, 0)
 			g.Extra = nil
@@ -980,9 +1077,7 @@ func runFamily(c *vh.Ctx, e *env, idx int) {
 				s, _ := cfg.DecryptTicket(sl.t, tls.ConnectionState{})
 				obs := "None"
 				if s != nil {
-					if b, err := s.Bytes(); err == nil {
-						obs = optBytes(true, b)
-					}
+					obs = keep.hold(s, "family")
 				}
 				ops = append(ops, fmt.Sprintf("FOn %d (HOpen %s %s)", i, vh.Bytes(sl.t), obs))
 				has := false
@@ -1036,12 +1131,11 @@ func runFamily(c *vh.Ctx, e *env, idx int) {
 		s, _ := cfgs[i].DecryptTicket(t, tls.ConnectionState{})
 		obs := "None"
 		if s != nil {
-			if b, err := s.Bytes(); err == nil {
-				obs = optBytes(true, b)
-			}
+			obs = keep.hold(s, "family")
 		}
 		ops = append(ops, fmt.Sprintf("FOn %d (HOpen %s %s)", i, vh.Bytes(t), obs))
 		tickets = append(tickets, t)
+		keep.check(c, "modified-ticket-open")
 	}
 	if ok {
 		i := r.Intn(len(cfgs))
@@ -1058,8 +1152,113 @@ func runFamily(c *vh.Ctx, e *env, idx int) {
 			openFor(r.Intn(len(cfgs)), mutateTicket(r, tickets))
 		}
 	}
+	keep.check(c, "end")
+	ops = keep.resolve(ops)
 	tb := buildTables(cands, tickets)
 	term := fmt.Sprintf("CFam %s %s %s [] %s %d%%Z %s", vh.List(tb.sh), vh.List(tb.hm), vh.List(tb.ks),
 		vh.Bytes(append(all, make([]byte, 64)...)), t0, vh.List(ops))
 	c.Case("family", term, fmt.Sprintf("fam/%s", strings.Join(kinds, ",")), len(cfgs) > 1, map[string]any{"ops": kinds})
+}
+
+// ---------- interleaved / concurrent decryptions ----------
+// Tickets of different sizes (60 B .. 1.5 KiB) under one Config are decrypted in random order, several times each,
+// with EncryptTicket and a rotation in between; every state ever returned is deep-compared with what it was after each
+// step. Then the same on several goroutines, compared after all have finished.
+func runInterleaved(c *vh.Ctx, e *env, idx int) {
+	r := c.Rng
+	cfg := &tls.Config{}
+	k0 := key32(r)
+	cfg.SetSessionTicketKeys([][32]byte{k0})
+	type tk struct {
+		t    []byte
+		want []byte
+	}
+	var tks []tk
+	for i, n := 0, 4+r.Intn(3); i < n; i++ {
+		g := genState(r, e.ders, []int{0, 0, 1, 2, 0, 1}[(i+idx)%6])
+		ss, err := tls.ParseSessionState(g.refBytes())
+		if err != nil {
+			c.Fail("codec-parse-valid", "ParseSessionState rejects a valid encoding", vh.Hex(g.refBytes()), fmt.Sprint(err), "state")
+			return
+		}
+		t, err := cfg.EncryptTicket(tls.ConnectionState{}, ss)
+		if err != nil {
+			c.Fail("ticket-seal", "EncryptTicket fails on a valid state", g, fmt.Sprint(err), "ticket")
+			return
+		}
+		tks = append(tks, tk{t, g.refBytes()})
+	}
+	keep := &keeper{}
+	open := func(i int, step string) bool {
+		s, _ := cfg.DecryptTicket(tks[i].t, tls.ConnectionState{})
+		c.Count("interleaved-opens")
+		if s == nil {
+			c.Fail("ticket-roundtrip", "DecryptTicket(EncryptTicket(s)) yields no state under the same keys", vh.Hex(tks[i].t), "nil", "state")
+			return false
+		}
+		if b, _ := s.Bytes(); !bytes.Equal(b, tks[i].want) {
+			c.Fail("ticket-roundtrip", "DecryptTicket(EncryptTicket(s)) != s", vh.Hex(tks[i].t), vh.Hex(b), vh.Hex(tks[i].want))
+			return false
+		}
+		keep.hold(s, "interleaved")
+		return keep.check(c, step)
+	}
+	for round := 0; round < 3; round++ {
+		for _, i := range r.Perm(len(tks)) {
+			if !open(i, fmt.Sprintf("decrypting a ticket of %d bytes", len(tks[i].t))) {
+				return
+			}
+		}
+		switch round {
+		case 0: // sealing in between
+			g := genState(r, e.ders, 0)
+			if ss, err := tls.ParseSessionState(g.refBytes()); err == nil {
+				cfg.EncryptTicket(tls.ConnectionState{}, ss)
+			}
+			keep.check(c, "EncryptTicket")
+		case 1: // a rotation that keeps the sealing key
+			cfg.SetSessionTicketKeys([][32]byte{key32(r), k0})
+			keep.check(c, "SetSessionTicketKeys")
+		}
+	}
+	// concurrently: each goroutine decrypts every ticket several times in its own order and keeps what it got
+	const G = 4
+	type got struct {
+		s *tls.SessionState
+		i int
+	}
+	res := make([][]got, G)
+	orders := make([][]int, G)
+	for g := range orders {
+		for rep := 0; rep < 3; rep++ {
+			orders[g] = append(orders[g], r.Perm(len(tks))...)
+		}
+	}
+	var wg sync.WaitGroup
+	for g := 0; g < G; g++ {
+		wg.Add(1)
+		go func(g int) {
+			defer wg.Done()
+			for _, i := range orders[g] {
+				s, _ := cfg.DecryptTicket(tks[i].t, tls.ConnectionState{})
+				res[g] = append(res[g], got{s, i})
+			}
+		}(g)
+	}
+	wg.Wait()
+	for g := range res {
+		for _, x := range res[g] {
+			c.Count("concurrent-opens")
+			var b []byte
+			if x.s != nil {
+				b, _ = x.s.Bytes()
+			}
+			if x.s == nil || !bytes.Equal(b, tks[x.i].want) {
+				c.Fail("state-value-changed/concurrent", "a SessionState returned by DecryptTicket on one goroutine differs from the sealed state once all goroutines have finished",
+					map[string]any{"goroutines": G, "ticket": vh.Hex(tks[x.i].t)}, vh.Hex(b), vh.Hex(tks[x.i].want))
+				return
+			}
+		}
+	}
+	keep.check(c, "concurrent decryptions")
 }
